@@ -335,7 +335,7 @@ def narrowing(crate):
                 src = b.e_operand(st["r"]["o"])
                 if src == rhs and mir.short_ty(st["r"]["ty"]) == "usize" and not b.locals[2]["ty"] == "usize":
                     found = True
-                    wide = b.locals[2]["ty"] in ("u128", "u64")
+                    wide = b.locals[2]["ty"] in ("u128",)   # on this 64-bit target only u128 is wider than usize
                     res.append((b, "%s|as usize" % b.key, "violation" if wide else "pass",
                                 "shift amount narrowed with a truncating `as usize`" if wide else "widening cast"))
         if not found:
